@@ -53,7 +53,9 @@ class Array(Function):
     def ast(self, tokens, stack, builder, check_n=lambda t: t.n_args):
         if self.has_start:
             Function('ARRAY(').ast(tokens, stack, builder, check_n=check_n)
+            stack[-1].attr['array'] = True
             Function('ARRAY(').ast(tokens, stack, builder, check_n=check_n)
+            stack[-1].attr['array'] = True
         else:
             # `;` and `}` are valid only inside the innermost array literal.
             i = len(stack) - 1
@@ -64,11 +66,15 @@ class Array(Function):
                 from ..errors import ParenthesesError
                 raise ParenthesesError()
             token = Parenthesis(')')
+            token.attr['array'] = True
             token.ast(tokens, stack, builder)
             if self.has_sep:
                 check_n = functools.partial(_check_tkn_n_args, token.get_n_args)
                 Function('ARRAY(').ast(
                     tokens, stack, builder, check_n=check_n, check_prev=False
                 )
+                stack[-1].attr['array'] = True
             else:
-                Parenthesis(')').ast(tokens, stack, builder)
+                token = Parenthesis(')')
+                token.attr['array'] = True
+                token.ast(tokens, stack, builder)
